@@ -19,7 +19,7 @@ use sozu_command_lib::config::{ConfigBuilder, FileConfig, ListenerBuilder};
 use sozu_command_lib::proto::command::{
     request::RequestType, ActivateListener, AddBackend, AddCertificate, CertificateAndKey, HardStop, ListenerType, LoadBalancingParams, PathRule,
     Request, RequestHttpFrontend, RequestTcpFrontend, ResponseStatus, ReturnListenSockets, RulePosition,
-    ServerConfig, SoftStop, WorkerRequest, WorkerResponse,
+    DeactivateListener, ServerConfig, SoftStop, WorkerRequest, WorkerResponse,
 };
 use sozu_command_lib::scm_socket::{Listeners, ScmSocket};
 use sozu_command_lib::state::ConfigState;
@@ -386,6 +386,8 @@ struct Scenario {
     early: usize,
     handover: bool,
     hammer: bool,
+    /// listeners handed back one by one with DeactivateListener{to_scm} before the hand-over / stop
+    deact: usize,
 }
 
 fn parse_scenario(op: &str) -> Option<Scenario> {
@@ -405,6 +407,7 @@ fn parse_scenario(op: &str) -> Option<Scenario> {
             "early" => s.early = v.parse().ok()?,
             "mode" => s.handover = v == "handover",
             "hammer" => s.hammer = v == "1",
+            "deact" => s.deact = v.parse().ok()?,
             _ => return None,
         }
     }
@@ -553,7 +556,7 @@ fn run_with_old(sc: &Scenario, run: &mut Run, w1: &mut HW) -> Result<(), String>
             declared[k].push(a);
         }
     }
-    let tcpish: Vec<SocketAddr> = declared[0].iter().chain(declared[1].iter()).chain(declared[2].iter()).cloned().collect();
+    // (the list of TCP-type addresses is computed after the single-listener hand-backs)
 
     // ---- clients with requests in flight on the old worker
     let mut clients: Vec<Client> = vec![];
@@ -717,6 +720,68 @@ fn run_with_old(sc: &Scenario, run: &mut Run, w1: &mut HW) -> Result<(), String>
         clients.push(Client { phase: phase.clone(), conn: Some(c), back, backend, idx: i, done: false, tcp: false, writer, h2: None, dead_before_stop: false, park: None, stop_at: None });
     }
 
+    // ---- single listeners handed back with DeactivateListener { to_scm: true }
+    let mut deactivated = 0usize;
+    let mut single_fds: Vec<RawFd> = vec![];
+    let mut orig = sc.counts;
+    for _ in 0..sc.deact {
+        // never the listener the HTTP clients use (the first http one), never one that carries a
+        // frontend or an h2 client of this scenario (those were appended after the declared ones)
+        let pick = [2usize, 0, 1, 3].iter().find_map(|&k| {
+            let from = if k == 0 { 1 } else { 0 };
+            (from..orig[k].min(declared[k].len())).find(|&i| {
+                let a = declared[k][i];
+                !(k == 2 && w1.state.tcp_fronts.values().flatten().any(|f| f.address == a))
+            }).map(|i| (k, i))
+        });
+        let Some((k, p)) = pick else { break };
+        let a = declared[k].remove(p);
+        orig[k] -= 1;
+        let ty = [ListenerType::Http, ListenerType::Https, ListenerType::Tcp, ListenerType::Udp][k];
+        let id = w1.send(RequestType::DeactivateListener(DeactivateListener { address: a.into(), proxy: ty.into(), to_scm: true }))?;
+        let resp = w1.wait_final(&id, T)?;
+        if resp.status != ResponseStatus::Ok as i32 {
+            run.fail("handover-failed", format!("DeactivateListener {} {a}: {}", PROTOS[k], resp.message));
+            continue;
+        }
+        let mut scm = w1.scm_main.clone();
+        let _ = scm.set_blocking(false);
+        let mut got = None;
+        let until = Instant::now() + T;
+        while Instant::now() < until {
+            if let Ok(l) = scm.receive_listeners() {
+                got = Some(l);
+                break;
+            }
+            thread::sleep(Duration::from_millis(1));
+        }
+        match got {
+            None => run.fail("listener-lost-in-handover", format!("{} listener {a}: nothing on the scm socket after DeactivateListener(to_scm) answered Ok", PROTOS[k])),
+            Some(l) => {
+                let lists = [&l.http, &l.tls, &l.tcp, &l.udp];
+                let total: usize = lists.iter().map(|x| x.len()).sum();
+                if total != 1 || lists[k].len() != 1 || lists[k][0].0 != a {
+                    run.fail("listener-lost-in-handover", format!("{} listener {a} deactivated to scm: received {:?}", PROTOS[k], l));
+                } else if sockname(lists[k][0].1) != Some(a) {
+                    run.fail("listener-address-changed", format!("{} listener {a}: descriptor is bound to {:?}", PROTOS[k], sockname(lists[k][0].1)));
+                } else if k != 3 {
+                    // the socket is ours now and still listening: nobody must be refused
+                    if let Err(e) = can_connect(a) {
+                        run.fail("accept-gap-during-handover", format!("{a} after DeactivateListener(to_scm): {e}"));
+                    }
+                }
+                for x in lists.iter() {
+                    for (_, fd) in x.iter() {
+                        single_fds.push(*fd);
+                    }
+                }
+            }
+        }
+        deactivated += 1;
+    }
+    let tcpish: Vec<SocketAddr> = declared[0].iter().chain(declared[1].iter()).chain(declared[2].iter()).cloned().collect();
+    run.r.tags.push(format!("deactivated-to-scm:{deactivated}"));
+
     // ---- connector hammering the addresses during the hand-over
     let stop_flag = Arc::new(AtomicBool::new(false));
     let refused = Arc::new(Mutex::new(Vec::<String>::new()));
@@ -852,8 +917,13 @@ fn run_with_old(sc: &Scenario, run: &mut Run, w1: &mut HW) -> Result<(), String>
         // ---- soft stop of the old worker, trace fed to the Lean model
         let inflight = clients.iter().filter(|c| c.holds_stop() && !c.done).count();
         let idle = clients.iter().filter(|c| !c.holds_stop() && !c.done).count();
-        let mut trace = vec![format!("ho-new {inflight} {idle}")];
+        let listeners_before: usize = declared.iter().map(|l| l.len()).sum::<usize>() + deactivated;
+        let mut trace = vec![format!("ho-new {inflight} {idle} {listeners_before}")];
         let mut observed = vec![format!("ho inflight={inflight} idle={idle}")];
+        for _ in 0..deactivated {
+            trace.push("ho-deactivate".into());
+            observed.push("none exited=0".into());
+        }
         if sc.handover {
             // the listeners were handed back before: the model must give the same drain accounting
             trace.push("ho-return".into());
@@ -1041,6 +1111,11 @@ fn run_with_old(sc: &Scenario, run: &mut Run, w1: &mut HW) -> Result<(), String>
         }
     }
     drop(gap);
+    for fd in single_fds {
+        unsafe {
+            libc::close(fd);
+        }
+    }
     for c in clients {
         drop(c.conn);
         drop(c.back);
@@ -1050,6 +1125,26 @@ fn run_with_old(sc: &Scenario, run: &mut Run, w1: &mut HW) -> Result<(), String>
         n.hard_stop();
     }
     drop(reserved);
+    if deactivated > 0 {
+        // open finding: DeactivateListener lowers the drain threshold (base_sessions_count is not
+        // adjusted when the listener's slab entry goes); its consequences carry one class
+        let consequence = |c: &str| c == "softstop-ack-before-drain" || c == "h2-stream-cut-before-graceful-deadline" || c.starts_with("inflight-request-cut:sent") || c.starts_with("inflight-request-cut:midbody") || c == "inflight-request-cut:softstop-buffered-tail";
+        let early = run.r.oracle.iter().any(|(c, _)| consequence(c));
+        if early {
+            let mut details = vec![];
+            run.r.oracle.retain(|(c, d)| {
+                let hit = consequence(c) || c == "softstop-trace-model-mismatch";
+                if hit {
+                    details.push(d.clone());
+                }
+                !hit
+            });
+            run.r.oracle.push(("softstop-ack-before-drain:after-deactivate-listener".into(), format!("{deactivated} listener(s) deactivated before the stop: {}", details.join(" | "))));
+        } else {
+            // how many slab entries a session holds is not observable: the exact tick is not compared
+            run.r.oracle.retain(|(c, _)| c != "softstop-trace-model-mismatch");
+        }
+    }
     result
 }
 
@@ -1277,6 +1372,9 @@ impl Area for Handover {
             s("handover L=1,0,0,0 v6=0 clients=h2park-0-6500 early=0 mode=stop hammer=0"),
             s("handover L=1,0,0,0 v6=0 clients=sent+h2park-1-400 early=0 mode=handover hammer=0"),
             s("handover L=1,0,0,0 v6=0 clients=h2stoptail early=0 mode=stop hammer=0"),
+            // two listeners handed back one by one, then the stop, one request in flight
+            s("handover L=4,0,1,0 v6=0 clients=sent early=0 mode=stop hammer=0 deact=2"),
+            s("handover L=3,1,2,1 v6=30 clients=midbody early=0 mode=handover hammer=1 deact=1"),
             s("handover L=2,0,1,0 v6=50 clients=sent+h2stoptail early=0 mode=handover hammer=1"),
             s("handover L=1,0,0,0 v6=0 clients=h2tail early=0 mode=stop hammer=0"),
             s("handover L=1,0,0,0 v6=0 clients=sent early=0 mode=handover hammer=1"),
@@ -1327,14 +1425,15 @@ impl Area for Handover {
         vec![
             "new".into(),
             format!(
-                "handover L={},{},{},{} v6={v6} clients={} early={early} mode={} hammer={}",
+                "handover L={},{},{},{} v6={v6} clients={} early={early} mode={} hammer={} deact={}",
                 counts[0],
                 counts[1],
                 counts[2],
                 counts[3],
                 if clients.is_empty() { "-".to_string() } else { clients.join("+") },
                 if handover { "handover" } else { "stop" },
-                rng.chance(2, 3) as u8
+                rng.chance(2, 3) as u8,
+                if total >= 3 && rng.chance(1, 5) { rng.range(1, 3) } else { 0 }
             ),
         ]
     }
